@@ -56,6 +56,9 @@ pub trait SchedHook {
     fn timeout_budget(&self) -> u32;
     /// Spawn a task running `f`; the returned closure blocks until it has finished.
     fn spawn(&self, name: Option<String>, f: ThreadBody) -> Box<dyn FnOnce()>;
+    /// A sleep of `dur` was asked for (it is replaced by a `Point::Sleep` scheduling
+    /// point; this only reports the duration).
+    fn sleep_requested(&self, _dur: std::time::Duration) {}
 }
 
 thread_local! {
@@ -220,7 +223,10 @@ pub mod vstd {
         pub fn sleep(dur: std::time::Duration) {
             match hook() {
                 None => std::thread::sleep(dur),
-                Some(h) => h.yield_point(Point::Sleep),
+                Some(h) => {
+                    h.sleep_requested(dur);
+                    h.yield_point(Point::Sleep);
+                }
             }
         }
 
